@@ -23,6 +23,19 @@ def units_first(ctx):
     return out
 
 
+def with_scenarios(ctx):
+    """dependency projects with a second and third scenario: every edge, however it is spelled ('depends' or 'precedes',
+    with or without options), binds in every scenario"""
+    import gens
+    out = []
+    for ap in gens.family(ctx, "deps", ctx.n(50, 400)) + gens.family(ctx, "dupprec", ctx.n(30, 250)):
+        ap["scenario_lines"] = [ctx.rng.choice(['scenario plan "plan" { scenario s1 "s1" }',
+                                                'scenario plan "plan" { scenario s1 "s1" { scenario s2 "s2" } }'])]
+        ap["_family"] = "scen" + ap["_family"]
+        out.append(ap)
+    return out
+
+
 def run(ctx):
     schedcheck.run(ctx, "C04", PROPS,
                    [("deps", 150, 1500), ("coredeps", 80, 800), ("core", 40, 400), ("alap", 100, 1000), ("alapcore", 100, 1000), ("sd", 60, 600), ("dupprec", 60, 500), ("taskalap", 40, 400), ("subslot", 40, 300), ("alapnest", 100, 800), ("maxgapdeps", 100, 800), ("gaplenmix", 60, 500)],
@@ -30,5 +43,5 @@ def run(ctx):
                    ["edges are re-derived from the abstract project (own, inherited from every ancestor, 'precedes' inverted)",
                     "the theorem covers forward mode in the whole-slot dialect; backward (ALAP) mode, mid-slot gaps and milestones are checked on the implementation by the oracle only",
                     "on-start edges in backward mode and chains mixing modes are not claimed (property text)"],
-                   "corpus first; random DAGs over nested trees (depth <= 3), gaps incl. non-slot multiples, on-start/on-end, relative and absolute references, precedes, dependencies on containers, dated containers, pinned starts; ASAP, project-level ALAP with deadlines on sinks and containers, task-level ALAP; edges that also carry a maximum gap; gaps in days as calendar time and as working time, the working-time meaning met first in every worker process",
-                   first_cases=units_first)
+                   "corpus first; random DAGs over nested trees (depth <= 3), gaps incl. non-slot multiples, on-start/on-end, relative and absolute references, precedes, dependencies on containers, dated containers, pinned starts; ASAP, project-level ALAP with deadlines on sinks and containers, task-level ALAP; edges that also carry a maximum gap; gaps in days as calendar time and as working time, the working-time meaning met first in every worker process; dependency projects with two and three scenarios, every scenario checked",
+                   first_cases=units_first, extra_cases=with_scenarios, all_scenarios=True)
